@@ -115,7 +115,7 @@ CHECKS = [
   'design_ref': 'DESIGN.md section 4, C17'},
  {'id': 'C18',
   'text': 'Real Daemon._send/_send_single/_send_vector/_post_json/_get_to_file/failover and the public calls against a '
-          'stub aiohttp session: every sequence of k <= 3 (quick) / 5-7 (thorough) faults over the 8 handled kinds '
+          'stub aiohttp session: every sequence of k <= 3 (quick) / 4-5 (thorough) faults over the 8 handled kinds '
           '(solver-enumerated) x 1..3 URLs x 7 calls, with init_retry/max_retry symbolic reals (0 < init <= max <= 16 '
           'init): result equals the stub daemon\'s answer position by position, genuine errors raise DaemonError '
           'unretried, sleeps and URLs follow the back-off / round-robin rule for all parameter values, the block '
